@@ -1286,11 +1286,11 @@ def rep_variants(name: str) -> list[tuple[str, dict]]:
         out.append(("packed", {"view": True, "light": True}))
     out.append(("proto", {"field": "raw"}))
     out.append(("proto", {"field": "raw", "via": "ir.tensor", "light": True}))
-    out.append(("proto", {"field": "helper"}))
+    out.append(("proto", {"field": "helper", "light": True}))
     if name in ps["pn_int32"]:
         out += [("proto", {"field": "int32", "ext": "zero", "light": True}), ("proto", {"field": "int32", "ext": "sign"})]
         if bw < 32:
-            out.append(("proto", {"field": "int32", "ext": "high"}))
+            out.append(("proto", {"field": "int32", "ext": "high", "light": True}))
     if name in ps["pn_int64"]:
         out.append(("proto", {"field": "int64"}))
     if name in ps["pn_uint64"]:
@@ -1302,9 +1302,9 @@ def rep_variants(name: str) -> list[tuple[str, dict]]:
     if name in ps["pn_double"]:
         out.append(("proto", {"field": "double"}))
     out += [("external", {"pre": 0, "post": 0, "offset_none": True}),
-            ("external", {"pre": 0, "post": 0, "length": "nbytes"}),
+            ("external", {"pre": 0, "post": 0, "length": "nbytes", "light": True}),
             ("external", {"pre": 5, "post": 0}),                       # data ends exactly at end of file
-            ("external", {"pre": 3, "post": 4, "length": "nbytes", "via": "proto"}),
+            ("external", {"pre": 3, "post": 4, "length": "nbytes", "via": "proto", "light": True}),
             ("external", {"pre": 600, "post": 1, "light": True})]
     try:
         from onnx_ir import tensor_adapters
@@ -1317,16 +1317,16 @@ def rep_variants(name: str) -> list[tuple[str, dict]]:
     except Exception:  # noqa: BLE001
         pass
     out += [("lazy", {"inner": {"rep": "array", "params": {"variant": "ml"}}, "cache": False}),
-            ("lazy", {"inner": {"rep": "external", "params": {"pre": 2, "post": 0}}, "cache": True}),
-            ("lazy", {"inner": {"rep": "proto", "params": {"field": "raw"}}, "cache": False}),
+            ("lazy", {"inner": {"rep": "external", "params": {"pre": 2, "post": 0}}, "cache": True, "light": True}),
+            ("lazy", {"inner": {"rep": "proto", "params": {"field": "raw"}}, "cache": False, "light": True}),
             ("lazy", {"inner": {"rep": "external", "params": {"pre": 4097, "post": 0}}, "cache": False, "light": True}),
             ("serialized", {"inner": {"rep": "array", "params": {"variant": "ml"}}}),
             ("serialized", {"inner": {"rep": "external", "params": {"pre": 1, "post": 1}}, "light": True})]
     if bw < 8:
-        out += [("lazy", {"inner": {"rep": "packed", "params": {}}, "cache": True}),
+        out += [("lazy", {"inner": {"rep": "packed", "params": {}}, "cache": True, "light": True}),
                 ("serialized", {"inner": {"rep": "packed", "params": {}}})]
     if name in ps["pn_int32"]:
-        out.append(("serialized", {"inner": {"rep": "proto", "params": {"field": "int32", "ext": "sign"}}}))
+        out.append(("serialized", {"inner": {"rep": "proto", "params": {"field": "int32", "ext": "sign"}}, "light": True}))
     return out
 
 
@@ -1372,14 +1372,14 @@ def gen_wellformed(ck) -> list[dict]:
                 if off > 20000 and name not in far_names:
                     continue            # quick tier: the far offsets (cost grows with the prefix) on 4 dtypes per run
                 n = rng.choice([1, 2, 3, 5, 8, 9]) if oi % 4 else rng.choice([1, 7])
-                for order in (ORDERS if off == 4096 else [ORDERS[(oi + rnd) % len(ORDERS)]]):
+                for order in ((ORDERS if ck.thorough else ORDERS[rnd % 2::2]) if off == 4096 else [ORDERS[(oi + rnd) % len(ORDERS)]]):
                     params = {"pre": off + rng.choice([0, 0, 1, 13]) if oi % 3 == 2 else off,
                               "post": rng.choice([0, 0, 3]), "length": rng.choice(["none", "nbytes"]),
                               "via": rng.choice([None, "proto"])}
                     specs.append({"dtype": name, "shape": rng.choice(shapes_for(rng, n)), "bits": gen_bits(rng, name, n, "random"),
                                   "rep": "external", "params": params, "order": order,
                                   "dests": gen_dests(rng, ref_nbytes(name, n), full=False)})
-    n_rand = 150 if not ck.thorough else 2500
+    n_rand = 100 if not ck.thorough else 2500
     names = NUMERIC()
     for _ in range(n_rand):
         name = rng.choice(names)
@@ -1494,7 +1494,7 @@ def gen_malformed(ck) -> list[dict]:
     names = NUMERIC()
     sub = [n for n in names if BW(n) < 8]
     ps = proto_sets()
-    reps = 12 if not ck.thorough else 120
+    reps = 8 if not ck.thorough else 120
     for _ in range(reps):
         # packed bytes with non-zero padding bits / wrong byte count
         name = rng.choice(sub)
